@@ -49,11 +49,17 @@ VARIABLES base, tree, done
 vars == <<base, tree, done>>
 Init == base = Num(0, 1) /\ tree = Num(0, 1) /\ done = "no"
 PickD1 == /\ Family = "d1" /\ done = "no" /\ (\E t \in NumD1_(0) \cup LogD1_(0) : tree' = t) /\ done' = "yes" /\ UNCHANGED base
+\* family "zero": a zero factor around a depth-2 tree that contains a division (the absorbing
+\* rule 0 * e -> 0 must not erase a zero or variable denominator hidden anywhere inside e)
+DivBases == {B("div", a, b) : a \in NumLeaves, b \in NumLeaves}
+ZeroWrap(t) == {B("mul", Num(0, 1), t), B("mul", t, Num(0, 1)), B("mul", Num(0, -1), t), B("mul", B("sub", V("x"), V("x")), t)}
 PickBase == /\ Family # "d1" /\ done = "no"
-            /\ \E t \in (IF Family = "d2num" THEN NumD1_(0) \ NumLeaves ELSE LogD1_(0) \ LogLeaves) : base' = t
+            /\ \E t \in (CASE Family = "d2num" -> NumD1_(0) \ NumLeaves [] Family = "zero" -> DivBases [] OTHER -> LogD1_(0) \ LogLeaves) : base' = t
             /\ done' = "base" /\ UNCHANGED tree
 Wrap == /\ done = "base"
-        /\ \E t \in (IF Family = "d2num" THEN WrapNum(base) ELSE WrapLog(base) \cup WrapLogAsNum(base)) : tree' = t
+        /\ \E t \in (CASE Family = "d2num" -> WrapNum(base)
+                       [] Family = "zero" -> UNION {ZeroWrap(w) : w \in WrapNum(base)}
+                       [] OTHER -> WrapLog(base) \cup WrapLogAsNum(base)) : tree' = t
         /\ done' = "yes" /\ UNCHANGED base
 Next == PickD1 \/ PickBase \/ Wrap
 Spec == Init /\ [][Next]_vars
